@@ -912,6 +912,18 @@ class HeapInterp:
             return o
         if isinstance(v, str):
             return Obj("const", E, v)
+        from .model import ConstInst
+        if isinstance(v, ConstInst):
+            # an instance of a value class met in a constant table
+            items = [self.lift(x, depth + 1) for x in v.fields.values()]
+            bases = self.repo.base_names(v.ci)
+            o = self.mktuple(items) if any(b.split(".")[-1] == "NamedTuple" for b in bases) else Obj("instance")
+            o.val = v.ci
+            for n, it in zip(v.fields, items):
+                o.fields["." + n] = it
+            return o
+        if v is None:
+            return NONE()
         return const(v)
 
     def e_Constant(self, e, env, pc, fi):
